@@ -221,6 +221,13 @@ func tokBytes(ts []tok) []byte {
 			b.Write(g.Data4)
 		case "raw":
 			b.Write(raws[t.A])
+		case "dimvec3", "dimvec4":
+			// dimension count and a vector of the class named by the token (see dims.go)
+			k := int(t.K[6] - '0')
+			put(4, uint64(k))
+			for _, d := range dimVector(t.N, t.A, k) {
+				put(4, uint64(uint32(d)))
+			}
 		case "rep":
 			// n copies of the bytes given in hex (nesting prefixes)
 			unit, err := hex.DecodeString(t.A)
